@@ -12,6 +12,7 @@ from fractions import Fraction
 from statistics import median
 
 from vlib import core
+from vlib import translate
 from vlib.core import g_bool, g_list, g_opt, g_q, g_str, g_z
 
 IMPORTS = "From QV Require Import Common.Base Crit.Criteria Crit.Spsa Crit.CritCheck.\nFrom Coq Require Import QArith."
@@ -520,6 +521,7 @@ def nontrivial(case):
 
 
 def run(ctx):
+    translate.check_link(ctx, "C13")  # regenerate Gallina from /repo's current source; link lemmas coq/link/C13Link.v
     ctx.rule = ("per criterion: operation sequences of 1-12 evaluations (dyadic values in [-8,8], many zeros/repeats/sign changes; populations of 1-6 with None entries) "
                 "with reset_state in between, thresholds incl. 0 and negatives, allowed violations 0-3 (and -1), Python float and numpy.float64 inputs; "
                 "SPSA: 1-5 optimiser runs of callbacks (same first count per run, single-callback runs, equal-counter boundaries, rejected steps, maxfev, restarts) and arbitrary callback sequences; "
